@@ -17,8 +17,8 @@ open Mdsort Mdsort.Model
 open Mdsort.Proofs.Own (runO)
 
 /-- The error bit of the processing of one message when the next call has index `i`: the file is
-not known, the parse phase failed, the verdict of the rules is an error, or the action list reported
-an error. -/
+not known, the parse phase failed, the verdict of the rules IN THIS RUN is an error (evaluation asks the operating
+system: the result of `evalP` on the results `orcl` gives, `evVerdict`), or the action list reported an error. -/
 def msgError (env : PEnv) (orc : EvalOracles) (expr : Expr) (md : Maildir) (name : Bytes) (st : MainSt)
     (orcl : Nat → Call → Res) (i : Nat) : Bool :=
   match md.dirH with
@@ -30,13 +30,13 @@ def msgError (env : PEnv) (orc : EvalOracles) (expr : Expr) (md : Maildir) (name
       match (runO orcl (messageParseP d md.path name content) i).1 with
       | none => true
       | some ms =>
-        match verdict env orc expr md.path name content with
+        match evVerdict env orc ms (runO orcl (evalMs env orc expr ms) (runO orcl (messageParseP d md.path name content) i).2.2).1 with
         | .nomatch => false
         | .act ml msgs fl =>
           if env.dryrun then false
           else
             (runO orcl (matchesExec env ml { src := md, chsrc := false, ms := { ms with msg := msgs 0, flags := fl }, reject := false })
-              (runO orcl (messageParseP d md.path name content) i).2.2).1.2
+              (runO orcl (evalMs env orc expr ms) (runO orcl (messageParseP d md.path name content) i).2.2).2.2).1.2
         | _ => true
 
 def isDot (n : Bytes) : Bool := n == [46] || n == [46, 46]
@@ -128,7 +128,7 @@ theorem all_processMessage_md (env : PEnv) (orc : EvalOracles) (expr : Expr) (md
       refine World.All.bind_of_forall _ fun pm => ?_
       cases pm with
       | none => exact rfl
-      | some ms => exact all_afterVerdict_md env md name st ms _
+      | some ms => exact World.All.bind_of_forall _ fun ev => all_afterVerdict_md env md name st ms _
 
 theorem walk_step (env : PEnv) (orc : EvalOracles) (expr : Expr) (fuel : Nat) (md : Maildir) (st : MainSt) (d : Handle)
     (n : Bytes) (orcl : Nat → Call → Res) (i : Nat)
@@ -241,8 +241,10 @@ theorem processMessage_error_eq (env : PEnv) (orc : EvalOracles) (expr : Expr) (
       | none => simp [afterParse]
       | some ms =>
         dsimp only
-        rw [afterParse, msVerdict_of_parsed env orc expr md.path name content ms hpm]
-        cases verdict env orc expr md.path name content with
+        rw [afterParse, runO_bind]
+        generalize (runO orcl (evalMs env orc expr ms) j).2.2 = j2 at *
+        generalize (runO orcl (evalMs env orc expr ms) j).1 = ev at *
+        cases evVerdict env orc ms ev with
         | unparsable => simp only [afterVerdict, runO_freeThen]; simp
         | error => simp only [afterVerdict, runO_freeThen]; simp
         | interpFail => simp only [afterVerdict, runO_freeThen]; simp
